@@ -7,6 +7,7 @@ from typing import Dict, List, Iterable, Tuple, Deque
 
 from conductor.context import Context
 from conductor.errors import ConductorError, ConductorAbort
+from conductor.errors.signal import abort_deferred
 from conductor.execution.handle import OperationExecutionHandle
 from conductor.execution.ops.operation import Operation
 from conductor.execution.plan import ExecutionPlan
@@ -248,16 +249,19 @@ class Executor:
                     )
                 handle = None
                 try:
-                    slot = (
-                        self._available_slots[-1]
-                        if self._running_parallel and self._slots > 1
-                        else None
-                    )
-                    handle = next_op.start_execution(ctx, slot)
-                    handle.slot = slot
-                    self._inflight_ops.add_op(handle, next_op)
-                    if slot is not None:
-                        self._available_slots.pop()
+                    # An abort is acted upon once the operation is registered
+                    # (so that a process that was just started is terminated).
+                    with abort_deferred():
+                        slot = (
+                            self._available_slots[-1]
+                            if self._running_parallel and self._slots > 1
+                            else None
+                        )
+                        handle = next_op.start_execution(ctx, slot)
+                        handle.slot = slot
+                        self._inflight_ops.add_op(handle, next_op)
+                        if slot is not None:
+                            self._available_slots.pop()
                 except ConductorAbort:
                     next_op.set_state(OperationState.ABORTED)
                     if handle is not None:
